@@ -6,7 +6,7 @@
    race detector and the soundness of the footprint scan are trusted.
    Statements only; proofs in proofs/SchedProofs.v, proofs/FootprintsProofs.v. *)
 From Coq Require Import List Arith Bool.
-From Tink Require Import Sched SchedProofs Footprints FootprintsProofs.
+From Tink Require Import Bytes Manager Prefix Factory Sched SchedProofs SchedProofs2 Footprints FootprintsProofs.
 Import ListNotations.
 
 (* Schedule independence: for ANY shared object type, local state type and
@@ -41,6 +41,23 @@ Theorem C18_no_shared_writes_in_source : forallb no_writes c18_footprints = true
 Proof. exact no_shared_writes_in_source. Qed.
 Print Assumptions C18_no_shared_writes_in_source.
 
+(* The theorem instantiated with the model of a keyset primitive (model/Factory.v, the model
+   C05 ties to the code): the shared object is the prefix map built at construction, a call of
+   Decrypt / Verify / VerifyMAC is "look up the candidates for the input's prefix", then "try
+   the next candidate", one atomic step each.  For ANY keyset, ANY validity predicate, ANY
+   number of concurrent calls with ANY inputs and ANY interleaving: once all calls have
+   finished the prefix map is unchanged and every call holds exactly the verdict of the
+   sequential selection rule for ITS OWN input. *)
+Theorem C18_concurrent_keyset_primitive_calls :
+  forall (valid : fentry -> bytes -> bool) ks (inputs : list bytes) (sched : list nat),
+    let sh := pm_build ks in
+    let calls := map (fun x => ((x, None, None) : call, S (length (pm_matching sh x)))) inputs in
+    let final := run_sched pmap call (prim_step valid) (sh, calls) sched in
+    finished call (snd final) ->
+    fst final = sh /\
+    map (fun t => result_of (fst t)) (snd final) = map (accept valid ks) inputs.
+Proof. exact concurrent_calls_are_accept. Qed.
+Print Assumptions C18_concurrent_keyset_primitive_calls.
 (* Non-vacuity of the premise: a step function that only reads the shared key. *)
 Example C18_premise_inhabited :
   let step := fun (key : nat) (l : nat * nat) => (key, (fst l, fst l + key)) in
